@@ -29,8 +29,18 @@ def info_for(code, tag):
     return ([x % tag for x in c], [LICS[tag % len(LICS)] for _ in l])
 
 
-def build_case(levels, own, sib):
-    """-> (files dict, ground truth levels [(prec, cpr, lic)|None], ground truth own (cpr, lic), file path)"""
+SAME_COP = "SPDX-FileCopyrightText: 2020 Same Holder"
+SAME_LIC = "MIT"
+
+
+def build_case(levels, own, sib, same=""):
+    """-> (files dict, ground truth levels [(prec, cpr, lic)|None], ground truth own (cpr, lic), file path)
+
+    same: "C" in it — every source that states a copyright notice states literally SAME_COP; "L" in it — every source that
+    states a licence states SAME_LIC (so that one value comes from several sources)."""
+    def info(code, tag):          # info_for, with the values made equal on request
+        c, l = info_for(code, tag)
+        return ([SAME_COP for _ in c] if "C" in same else c, [SAME_LIC for _ in l] if "L" in same else l)
     depth = len(levels)
     fdir = DIRS[depth - 1] if depth else ""
     fpath = (fdir + "/" if fdir else "") + "f.txt"
@@ -44,7 +54,7 @@ def build_case(levels, own, sib):
         # a table that does not match the file comes last, to check "last *matching*"
         tables = list(lv)
         for k, (p, i) in enumerate(tables):
-            c, l = info_for(i, 10 * d + k)
+            c, l = info(i, 10 * d + k)
             rel = os.path.relpath(fpath, DIRS[d] or ".")
             pat = rel if k % 2 == 0 else "**/f.txt" if "/" in rel else "f.*"
             parts.append("\n[[annotations]]\npath = %s\nprecedence = \"%s\"\n" % (repr(pat).replace("'", '"'), PRECS[p]))
@@ -55,7 +65,7 @@ def build_case(levels, own, sib):
         parts.append("\n[[annotations]]\npath = \"nomatch/**\"\nprecedence = \"override\"\nSPDX-FileCopyrightText = \"2000 Nobody\"\nSPDX-License-Identifier = \"MIT\"\n")
         files[(DIRS[d] + "/" if DIRS[d] else "") + "REUSE.toml"] = "".join(parts)
         p, i = tables[-1]
-        c, l = info_for(i, 10 * d + len(tables) - 1)
+        c, l = info(i, 10 * d + len(tables) - 1)
         truth.append((p, c, l))
     body = {"n": "just text\n",
             "C": "# SPDX-FileCopyrightText: 2019 Own\ntext\n",
@@ -63,15 +73,28 @@ def build_case(levels, own, sib):
             "B": "# SPDX-FileCopyrightText: 2019 Own\n# SPDX-License-Identifier: Unlicense\ntext\n",
             "U": "# SPDX-FileCopyrightText: 2019 Own\n# SPDX-License-Identifier: MIT AND\ntext\n",
             "X": b"\x00\x01\x02SPDX-FileCopyrightText: 2019 Own\nSPDX-License-Identifier: Unlicense\n\x00\xff"}[own]
-    files[fpath] = body
     own_truth = {"n": ([], []), "C": (["SPDX-FileCopyrightText: 2019 Own"], []), "L": ([], ["Unlicense"]),
                  "B": (["SPDX-FileCopyrightText: 2019 Own"], ["Unlicense"]), "U": ([], []), "X": ([], [])}[own]
+    sbody = None
     if sib != "-":
         sbody = {"e": "", "C": "SPDX-FileCopyrightText: 2018 Sib\n", "L": "SPDX-License-Identifier: Zlib\n",
                  "B": "SPDX-FileCopyrightText: 2018 Sib\nSPDX-License-Identifier: Zlib\n"}[sib]
-        files[fpath + ".license"] = sbody
         own_truth = {"e": ([], []), "C": (["SPDX-FileCopyrightText: 2018 Sib"], []), "L": ([], ["Zlib"]),
                      "B": (["SPDX-FileCopyrightText: 2018 Sib"], ["Zlib"])}[sib]
+
+    def equalise(text):
+        if isinstance(text, str):
+            if "C" in same:
+                text = text.replace("SPDX-FileCopyrightText: 2019 Own", SAME_COP).replace("SPDX-FileCopyrightText: 2018 Sib", SAME_COP)
+            if "L" in same:
+                text = text.replace("SPDX-License-Identifier: Unlicense", "SPDX-License-Identifier: " + SAME_LIC).replace(
+                    "SPDX-License-Identifier: Zlib", "SPDX-License-Identifier: " + SAME_LIC)
+        return text
+    files[fpath] = equalise(body)
+    if sbody is not None:
+        files[fpath + ".license"] = equalise(sbody)
+    own_truth = ([SAME_COP for _ in own_truth[0]] if "C" in same else own_truth[0],
+                 [SAME_LIC for _ in own_truth[1]] if "L" in same else own_truth[1])
     return files, truth, own_truth, fpath
 
 
@@ -426,9 +449,137 @@ class ProjectStream(Stream):
         return {"files": self._tree(case), "lookup_orders": [[files[i][0] for i in o] for o in orders]}
 
 
+# --------------------------------------------------------------------------
+# the stated observable: files[].copyrights[] / files[].spdx_expressions[] of `reuse lint --json`
+
+
+def build_dep5_case(own, sib, paras, same=""):
+    files, _, own_truth, fpath = build_case([None, None], own, sib, same)
+    dep5 = "Format: https://www.debian.org/doc/packaging-manuals/copyright-format/1.0/\n"
+    truth = [None]
+    c1, c2, c3 = (SAME_COP, SAME_COP, SAME_COP + " II") if "C" in same else ("2001 Dep A", "2002 Dep B", "2003 Dep C")
+    l1, l2 = (SAME_LIC, SAME_LIC) if "L" in same else ("MIT", "ISC")
+    if paras >= 1:
+        dep5 += "\nFiles: a/*\nCopyright: %s\nLicense: %s\n" % (c1, l1)
+        truth = [("a", [c1], [l1])]
+    if paras >= 2:
+        dep5 += "\nFiles: a/f.txt\nCopyright: %s\n %s\nLicense: %s\n" % (c2, c3, l2)
+        truth = [("a", [c2, c3], [l2])]
+    files[".reuse/dep5"] = dep5
+    return files, truth, own_truth, fpath
+
+
+class LintJsonStream(Stream):
+    """What `reuse lint --json` prints per file: every item the specification attributes to the file must be listed, once, with the
+    path and the kind of the source that states it — in particular when two sources state the same value in the same words."""
+    name = "lintjson"
+    rule = ("real trees through the real `reuse lint --json`: the entries files[].copyrights[] / files[].spdx_expressions[] "
+            "(value, source, source_type) of one covered file under a chain of 1-3 REUSE.toml levels (17 level shapes) or a "
+            ".reuse/dep5 with 0-2 matching paragraphs x own information x .license sibling, with the values stated by the "
+            "sources {all different, the same licence everywhere, the same copyright line everywhere, both the same}; oracle: "
+            "the item set of the specification (spec_items), each item once, under its own source path and source type; the "
+            "model's item set is compared as in stream `tree`; non-trivial = distinct (case) whose answer names two sources")
+    SAMES = ["", "L", "C", "CL", "CL", "L"]
+
+    def cases(self, tier, rng):
+        opts = level_options()
+        own_sib = [(o, s) for o in "nCLBUX" for s in "-eCLB"]
+        reported = [i for i, o in enumerate(opts) if o is not None]
+        # depth 1: every level shape; deeper: random chains, mostly of levels that state something
+        for i in range(len(opts)):
+            for o, s in (own_sib if tier == "thorough" else rng.sample(own_sib, 5)):
+                yield {"kind": "toml", "chain": [i], "own": o, "sib": s, "same": rng.choice(self.SAMES)}
+        for _ in range(2500 if tier == "thorough" else 260):
+            depth = rng.choice([2, 2, 2, 3])
+            chain = [rng.choice(reported) if rng.random() < 0.8 else 0 for _ in range(depth)]
+            yield {"kind": "toml", "chain": chain, "own": rng.choice("nCLBBBUX"), "sib": rng.choice("-----eCLB"), "same": rng.choice(self.SAMES)}
+        for o, s in own_sib:
+            for paras in (0, 1, 2):
+                for same in (["", "L", "C", "CL"] if tier == "thorough" else [rng.choice(self.SAMES), "CL"]):
+                    yield {"kind": "dep5", "paras": paras, "own": o, "sib": s, "same": same}
+
+    def _build(self, case):
+        if case["kind"] == "dep5":
+            return build_dep5_case(case["own"], case["sib"], case["paras"], case["same"])
+        opts = level_options()
+        return build_case([opts[i] for i in case["chain"]], case["own"], case["sib"], case["same"])
+
+    def impl(self, case):
+        import json
+        files, truth, own_truth, fpath = self._build(case)
+        own_src = (fpath + ".license", "dot-license") if case["sib"] != "-" else (fpath, "file-header")
+        with cli.scratch("rv-c04j-") as root:
+            cli.write_tree(root, files)
+            saved = os.environ.get("_SUPPRESS_DEP5_WARNING")
+            os.environ["_SUPPRESS_DEP5_WARNING"] = "1"
+            try:
+                code, out, exc = cli.run_cli(["--no-multiprocessing", "lint", "--json"], root)
+            finally:
+                if saved is None:
+                    os.environ.pop("_SUPPRESS_DEP5_WARNING", None)
+                else:
+                    os.environ["_SUPPRESS_DEP5_WARNING"] = saved
+            if exc is not None:
+                return "EXC:%s:%s" % (type(exc).__name__, str(exc)[:100])
+            try:
+                rep, _ = json.JSONDecoder().raw_decode(out[out.index("{"):])
+            except Exception:
+                return "EXC:output:%s" % out[:100]
+            rr = os.path.realpath(root)
+            entries = [f for f in rep["files"] if os.path.realpath(os.path.join(root, f["path"])) == os.path.join(rr, fpath)]
+            if len(entries) != 1:
+                return "EXC:entries:%d entries for %s" % (len(entries), fpath)
+            items = []
+            for kind, key in (("C", "copyrights"), ("L", "spdx_expressions")):
+                for it in entries[0][key]:
+                    sp, st = it.get("source"), it.get("source_type")
+                    if case["kind"] == "dep5" and (sp, st) == (".reuse/dep5", "dep5"):
+                        label = "toml:0"
+                    elif case["kind"] == "toml" and st == "reuse-toml" and sp and sp.endswith("REUSE.toml") and os.path.dirname(sp) in DIRS:
+                        label = "toml:%d" % DIRS.index(os.path.dirname(sp))
+                    elif (sp, st) == own_src:
+                        label = "own"
+                    else:
+                        label = "bad-src:%s:%s" % (sp, st)
+                    items.append((kind, label, it["value"]))
+            # a list, not a set: an item printed twice stays visible
+            return " ".join(sorted("%s|%s|%s" % (k, s, enc(v)) for k, s, v in items))
+
+    def model_lines(self, case):
+        files, truth, own_truth, fpath = self._build(case)
+        fields = ["precedence", enc_list(own_truth[0]), enc_list(own_truth[1])]
+        for lv in truth:
+            fields += ["-", "~", "~"] if lv is None else [lv[0], enc_list(lv[1]), enc_list(lv[2])]
+        return ["\t".join(fields)]
+
+    def model_out(self, case, outs):
+        return " ".join(sorted(x for x in outs[0].split(" ") if x))
+
+    def oracle(self, case, impl_out):
+        if impl_out.startswith("EXC"):
+            return "lintjson-crash: " + impl_out
+        files, truth, own_truth, fpath = self._build(case)
+        want = canon(spec_items(truth, own_truth))
+        if impl_out != want:
+            def pretty(s):
+                return sorted((x.split("|")[0], x.split("|")[1], dec(x.split("|")[2])) for x in s.split(" ") if x.count("|") == 2)
+            g, w = pretty(impl_out), pretty(want)
+            return "lint-json-items-differ: %s: `lint --json` lists %s, the specification attributes %s (not listed: %s; listed but not attributed or listed twice: %s)" % (
+                fpath, g, w, [x for x in w if x not in g], [x for x in g if x not in w or g.count(x) > 1])
+        return None
+
+    def nontrivial(self, case, impl_out):
+        labels = {x.split("|")[1] for x in impl_out.split(" ") if x.count("|") == 2}
+        return (case["kind"], tuple(case.get("chain", [case.get("paras")])), case["own"], case["sib"], case["same"]) if len(labels) >= 2 else None
+
+    def show(self, case):
+        files, truth, own_truth, fpath = self._build(case)
+        return {"files": {k: (v if isinstance(v, str) else repr(v)) for k, v in files.items()}, "file": fpath, "same": case["same"]}
+
+
 PROPERTY = Property(
     pid="C04",
-    streams=[TreeStream(), Dep5Stream(), ProjectStream()],
+    streams=[TreeStream(), Dep5Stream(), ProjectStream(), LintJsonStream()],
     assumptions=[
         "glob matching of the [[annotations]] tables is a parameter of the model (decided by C05); the generator knows which tables match",
         "what reading the file's own source yields (tag extraction, binary detection, parse-error drop) is the generator's ground truth here and the subject of C02",
